@@ -553,7 +553,7 @@ def r12(ctx, facts):
         if op[0] not in ("c", "m"):
             return False
         seen, calls, bins = field_slice(b, op)
-        return not bins and any(b.local_ty(l).endswith("PartitionKeyIndex") for l, _ in seen) and \
+        return not bins and any("PartitionKeyIndex" in b.local_ty(l) for l, _ in seen) and \
             any(isinstance(e, list) and e[0] == "f" and e[2] == "index" for l, _ in seen for d in b.defs.get(l, []) if d[0] == "stmt" and d[3][0] == "use" and d[3][1][0] in ("c", "m") for e in d[3][1][1][1])
     for k, c in enumerate(nths):
         seen, calls, bins = field_slice(b, c.args[1])
